@@ -4,6 +4,10 @@
 set -e
 D="$(cd "$(dirname "$0")/.." && pwd)/fixtures"
 mkdir -p "$D"
+# DKIM signing keys (C13): PKCS#1 RSA 2048 / 1024 and a raw Ed25519 seed
+[ -f "$D/dkim_rsa.pem" ] || openssl genrsa -traditional -out "$D/dkim_rsa.pem" 2048 2>/dev/null
+[ -f "$D/dkim_rsa1024.pem" ] || openssl genrsa -traditional -out "$D/dkim_rsa1024.pem" 1024 2>/dev/null
+[ -f "$D/dkim_ed25519.b64" ] || head -c 32 /dev/urandom | base64 > "$D/dkim_ed25519.b64"
 [ -f "$D/good.pem" ] && [ -f "$D/expired.pem" ] && exit 0
 cd "$D"
 W="$(mktemp -d "$D/tmp.XXXXXX")"
